@@ -509,7 +509,8 @@ class TS:
                 # facts of call blocks that do not dominate the next block are dead (their single-def
                 # temporaries cannot be read there): dropping them keeps the configuration space small
                 ds = frames[-1].fn.dom_set(nb)
-                envt2 = tuple(sorted(((k_, v_) for k_, v_ in env.items() if k_ in ("ek", "rv") or isinstance(k_, tuple) or k_ in ds), key=repr))
+                fn_ = frames[-1].fn
+                envt2 = tuple(sorted(((k_, v_) for k_, v_ in env.items() if k_ in ("ek", "rv", "eo") or (isinstance(k_, tuple) and fn_.live_at(k_[1], nb)) or k_ in ds), key=repr))
                 stack.append(((frames, nb, s, cok, mon, envt2), key, ev))
 
             def report(payload, ev=None):
@@ -519,6 +520,41 @@ class TS:
                     vkeys.add(vk)
                     viol.append((payload, path))
 
+            # facts about locals with several definitions: `_r = Result::Ok(..)` / `Result::Err(..)` / `const bool` /
+            # a copy of such a local (the shape of an inlined helper's return value and of `let ok = if c {..} else {..}`)
+            lf = None
+            for st in fn.blocks[b]["s"]:
+                if st[0] != "A" or st[1][1] or st[1][0] == 0:
+                    continue
+                dl_ = st[1][0]
+                rv = st[2]
+                val = "?"
+                if rv[0] == "agg" and rv[1].endswith("result::Result"):
+                    val = ("RES", "Ok") if rv[2] == "Ok" else ("RES", "Err", "NEW")
+                elif rv[0] == "use" and rv[1][0] == "k" and rv[1][1].get("ty") == "bool" and "int" in rv[1][1]:
+                    val = ("B", bool(int(rv[1][1]["int"])))
+                elif rv[0] == "use" and rv[1][0] != "k" and not rv[1][1][1]:
+                    src = rv[1][1][0]
+                    val = (lf if lf is not None else env).get(("L", src))
+                    if val is None:
+                        r_ = self.pa.root(fn, rv[1])
+                        if r_[0] == "call" and not r_[3]:
+                            v_ = env.get(r_[2])
+                            if v_ is not None and v_[0] in ("RES", "B"):
+                                val = v_
+                if val == "?":
+                    if ("L", dl_) in (lf if lf is not None else env):
+                        lf = dict(lf if lf is not None else env)
+                        lf.pop(("L", dl_), None)
+                    continue
+                if val is not None and (len(fn.defs().get(dl_, ())) >= 2 or (rv[0] == "use" and rv[1][0] != "k")):
+                    lf = dict(lf if lf is not None else env)
+                    lf[("L", dl_)] = val
+                elif ("L", dl_) in (lf if lf is not None else env):
+                    lf = dict(lf if lf is not None else env)
+                    lf.pop(("L", dl_), None)
+            if lf is not None:
+                env = lf
             # exit kind tracking: assignments to _0 in this block
             ek = None
             for st in fn.blocks[b]["s"]:
@@ -552,6 +588,11 @@ class TS:
                 pass
             elif k == "ret":
                 kind = env.get("ek", "UNIT")
+                # ERR_PROP_NEW: an error propagated with `?` that was constructed (a refusal, not a fault passed on) in an
+                # inlined callee of this invocation; the entry function reports it as ERR_NEW
+                new_origin = kind in ("ERR_NEW", "ERR_PROP_NEW")
+                if kind == "ERR_PROP_NEW":
+                    kind = "ERR_NEW" if len(frames) == 1 else "ERR_PROP"
                 if len(frames) == 1:
                     p = monitor.on_exit(mon, s, kind)
                     if p is not None:
@@ -571,8 +612,12 @@ class TS:
                     # a tail call (`return f(x)`): the caller's exit kind is the callee's
                     caller = frames[-2].fn
                     cdest = caller.blocks[fr.callblk]["t"][3]
+                    if new_origin and cenv.get(fr.callblk) == ("RES", "Err"):
+                        cenv["eo"] = fr.callblk
+                    else:
+                        cenv.pop("eo", None)
                     if cdest[0] == 0 and not cdest[1] and cenv.get("ek") == "CALL" and cenv.get(fr.callblk, (None,))[0] == "RES":
-                        cenv["ek"] = "OK" if cenv[fr.callblk][1] == "Ok" else "ERR_PROP"
+                        cenv["ek"] = "OK" if cenv[fr.callblk][1] == "Ok" else ("ERR_PROP_NEW" if new_origin else "ERR_PROP")
                     # the same fact keyed by the destination local (a `match` whose arms assign one
                     # local from different calls makes that local multi-def)
                     dl = caller.blocks[fr.callblk]["t"][3]
@@ -597,6 +642,30 @@ class TS:
             r = r[1]
         cases = [(v, tb) for v, tb in t[2]] + [("otherwise", t[3])]
         decided = None
+        if t[1][0] != "k" and not t[1][1][1] and ("L", t[1][1][0]) in env and env[("L", t[1][1][0])][0] == "B":
+            r = ("local", t[1][1][0], None, (), 0)
+            neg = False
+        if r[0] == "local" and not r[3]:
+            v = env.get(("L", r[1]))
+            if v is not None and v[0] == "B":
+                decided = (not v[1]) if neg else v[1]
+                n = 1 if decided else 0
+                tgt = t[3]
+                for sv, tb in t[2]:
+                    if int(sv) == n:
+                        tgt = tb
+                push(tgt, env=env)
+                return
+        if r[0] == "discr" and r[1][0] == "local" and not r[1][3] and r[2] and r[2].endswith("result::Result"):
+            v = env.get(("L", r[1][1]))
+            if v is not None and v[0] == "RES":
+                n = 0 if v[1] == "Ok" else 1
+                tgt = t[3]
+                for sv, tb in t[2]:
+                    if int(sv) == n:
+                        tgt = tb
+                push(tgt, env=env)
+                return
         if r[0] == "call" and not r[3]:
             v = env.get(r[2])
             if v is not None and v[0] == "B":
@@ -806,7 +875,9 @@ class TS:
         elif TRY_BRANCH.search(q) and args:
             r = self.pa.root(fn, args[0])
             v = None
-            if r[0] == "call" and not r[3]:
+            if args[0][0] != "k" and not args[0][1][1] and ("L", args[0][1][0]) in env:
+                v = env[("L", args[0][1][0])]
+            elif r[0] == "call" and not r[3]:
                 v = env.get(r[2])
             elif r[0] == "local" and not r[3]:
                 v = env.get(("L", r[1]))
@@ -818,9 +889,20 @@ class TS:
             # `x.ok_or(ActError::..)?`: the error is constructed here, not propagated from a callee
             r = self.pa.root(fn, args[0]) if args else None
             if r is not None and r[0] == "call" and TRY_BRANCH.search(r[1]):
-                r2 = self.pa.root(fn, Call(fn, r[2]).args[0])
+                ba = Call(fn, r[2]).args[0]
+                r2 = self.pa.root(fn, ba)
                 if r2[0] == "call" and re.search(r"Option::<T>::ok_or(_else)?$", r2[1]):
                     env2["ek"] = "ERR_NEW"
+                elif r2[0] == "call" and env2.get("eo") == r2[2]:
+                    env2["ek"] = "ERR_PROP_NEW"   # the inlined callee constructed the error it returned
+                else:
+                    lv = None
+                    if ba[0] != "k" and not ba[1][1]:
+                        lv = env2.get(("L", ba[1][0]))
+                    if lv is None and r2[0] == "local" and not r2[3]:
+                        lv = env2.get(("L", r2[1]))
+                    if lv is not None and lv[0] == "RES" and len(lv) > 2 and lv[2] == "NEW":
+                        env2["ek"] = "ERR_NEW"    # `_r = Err(..)` literal in this body (an inlined helper's refusal)
 
         if call.dest[0] == 0 and not call.dest[1] and not FROM_RESIDUAL.search(q):
             env2 = dict(env2)
@@ -916,6 +998,7 @@ class TS:
         if call.dest[0] == 0 and not call.dest[1] and env2.get("ek") == "CALL" and env2.get(b, (None,))[0] == "RES":
             env2 = dict(env2)
             env2["ek"] = "OK" if env2[b][1] == "Ok" else "ERR_PROP"
+            env2.pop("eo", None)
         if not call.dest[1] and len(fn.defs().get(call.dest[0], ())) > 1:
             if env2.get(b, (None,))[0] == "RES":
                 env2 = dict(env2)
